@@ -305,8 +305,8 @@ func (e *Engine) sweep() {
 		p := el.Value.(*partition)
 		kept := p.runs[:0] // 原地过滤：写 index ≤ 读 index，无删除时不分配
 		for _, r := range p.runs {
-			if r.startTs >= int64(1e9) && now-r.startTs > limit {
-				continue // 超窗的延伸中 run：丢弃
+			if r.startTs >= int64(1e9) && now-r.startTs > limit && !hasAccept(r.states) {
+				continue // 超窗的延伸中 run：丢弃（已可接受的是合法匹配，留给下一事件/Flush 产出）
 			}
 			kept = append(kept, r)
 		}
@@ -375,15 +375,17 @@ func (e *Engine) step(p *partition, row map[string]any, ts, seq int64) []map[str
 
 	// 1. 推进现有 run（含未界完成：mr 不属于但 run 已可接受）。
 	for _, r := range p.runs {
-		if !e.withinOk(r, ts) || r.nrows > e.maxRunRows {
-			continue // 超期/超长：丢弃
+		if r.nrows > e.maxRunRows {
+			continue // 超长：丢弃（内存保护）
 		}
-		succ := e.advance(r, row)
-		if len(succ) == 0 {
-			if hasAccept(r.states) {
-				completions = append(completions, r) // 未界重复（A+/A*）收尾
-			}
-			continue
+		var succ []*run
+		if e.withinOk(r, ts) {
+			succ = e.advance(r, row)
+		} // 否则超期：不再延伸
+		// 已可接受的 run 若没有同样可接受的后继（无法延伸、超期，或只沿非接受分支延伸，
+		// 如 A (B C)? 遇 B），它本身就是一个合法匹配：记为完成，延伸失败时不致丢失。
+		if hasAccept(r.states) && !anyAccept(succ) {
+			completions = append(completions, r)
 		}
 		for _, s := range succ {
 			if isComplete(s.states) {
